@@ -8,7 +8,8 @@ use serde_json::json;
 /// file-system functions over a path alphabet that reaches every kind of failure (missing,
 /// directory, not UTF-8, NUL in the path, empty path, over-long name, a full device) - including
 /// failures the operating system never sees and which therefore carry no OS error number.
-fn native_results(thorough: bool) -> (u64, Vec<Violation>) {
+fn native_results(property: &str, thorough: bool) -> (u64, Vec<Violation>) {
+    let c01 = property == "C01";
     use crate::props::c18;
     use crate::ty::{belongs, Ty};
     use crate::val::canon_typed;
@@ -19,8 +20,8 @@ fn native_results(thorough: bool) -> (u64, Vec<Violation>) {
     let mut out: Vec<Violation> = acc
         .violations
         .into_iter()
-        .filter(|v| v.sig.starts_with("C18|result-not-in-declared-type|"))
-        .map(|v| Violation { sig: v.sig.replacen("C18|", "C01|native-", 1), detail: v.detail })
+        .filter(|v| if c01 { v.sig.starts_with("C18|result-not-in-declared-type|") } else { v.sig.starts_with("C18|call-failed|") && v.sig.contains("|PANIC") })
+        .map(|v| Violation { sig: v.sig.replacen("C18|", &format!("{property}|native-"), 1), detail: v.detail })
         .collect();
     let root = crate::report::verif_root().join("harness/target/scratch").join(format!("c01-fs-{}", std::process::id()));
     let setup = |root: &std::path::Path| {
@@ -62,8 +63,12 @@ fn native_results(thorough: bool) -> (u64, Vec<Violation>) {
         if full_device && path.ends_with("copy_file") {
             seconds.push(("full-device".into(), "/dev/full".into()));
         }
-        seconds.push(("contents".into(), "some contents".into()));
-        seconds.push(("no-contents".into(), String::new()));
+        // only write_to_file takes contents; for copy / rename a second string is a path and
+        // would be created relative to the working directory
+        if path.ends_with("write_to_file") {
+            seconds.push(("contents".into(), "some contents".into()));
+            seconds.push(("no-contents".into(), String::new()));
+        }
         for (d1, p1) in &paths {
             let tuples: Vec<(String, Vec<String>)> = if arity == 1 {
                 vec![(d1.clone(), vec![p1.clone()])]
@@ -76,7 +81,7 @@ fn native_results(thorough: bool) -> (u64, Vec<Violation>) {
                 let got = c18::call(f, args.iter().map(|a| Variable::from(a.clone())).collect());
                 match got {
                     Ok(v) => {
-                        if !belongs(&v, &rty) || !v.as_type().matches(&ft.return_type) {
+                        if c01 && (!belongs(&v, &rty) || !v.as_type().matches(&ft.return_type)) {
                             out.push(Violation {
                                 sig: format!("C01|native-result-not-in-declared-type|{path}|{desc}"),
                                 detail: json!({"kind": "fs_call", "function": path, "argument_kinds": desc, "args": args.iter().map(|a| if a.len() > 80 { format!("{}…", &a[..60]) } else { a.clone() }).collect::<Vec<_>>(), "declared_result": rty.print(), "observed": canon_typed(&v), "observed_type": Ty::from_impl(&v.as_type()).print()}),
@@ -84,8 +89,10 @@ fn native_results(thorough: bool) -> (u64, Vec<Violation>) {
                         }
                     }
                     Err(e) if e == "exhausted" => {}
+                    // a native function neither panics nor raises: failures are values of the declared type
+                    Err(e) if c01 && e.starts_with("PANIC") => {}
                     Err(e) => out.push(Violation {
-                        sig: format!("C01|native-call-failed|{path}|{desc}|{}", e.chars().take(50).collect::<String>()),
+                        sig: format!("{property}|native-call-failed|{path}|{desc}|{}", e.chars().take(50).collect::<String>()),
                         detail: json!({"kind": "fs_call", "function": path, "argument_kinds": desc, "observed": e}),
                     }),
                 }
@@ -107,11 +114,14 @@ pub fn run(property: &str, tier: &str) -> i32 {
     let mut native_calls = 0u64;
     if property == "C01" {
         report.violation_set(c01);
-        let (n, v) = crate::core::on_big_stack(move || native_results(thorough));
-        native_calls = n;
-        report.violations(v);
     } else {
         report.violation_set(c02);
+    }
+    {
+        let property = property.to_string();
+        let (n, v) = crate::core::on_big_stack(move || native_results(&property, thorough));
+        native_calls = n;
+        report.violations(v);
     }
     let inconclusive_share = exhausted as f64 / (calls.max(1) as f64);
     let coverage = json!({
@@ -122,7 +132,7 @@ pub fn run(property: &str, tier: &str) -> i32 {
         "programs_accepted": accepted,
         "host_calls": calls,
         "closure_calls": closure_calls,
-        "native_function_calls_judged (stdlib sweep + file-system functions over the failure path alphabet; C01 only)": native_calls,
+        "native_function_calls_judged (stdlib sweep + file-system functions over the failure path alphabet: results inhabit the declared type (C01), no call panics (C02))": native_calls,
         "host_rejected_argument_tuples": host_rejected,
         "completed_with_value": values,
         "documented_errors": exec_errors,
